@@ -134,7 +134,7 @@ def attempt(ctx, x, rsmi, vkind, kind, d, s):
 
 def run(ctx):
     c03.install()
-    RC.RUN_TIMEOUT_S[0] = 10 if ctx.quick else 300
+    RC.RUN_TIMEOUT_S[0] = 10 if ctx.quick else 45
     rng = ctx.rng
     rx = [x for x in RC.rxns() if RC.flags_for(x["mode"])]
     step = 5 if ctx.quick else 1
